@@ -186,8 +186,8 @@ def structure_factor(prog, chk, pi):
             acc_ok = False
             acc_msg = 'F_H.re / F_H.im are not accumulated in the second loop'
             continue
-        d_re = d_re - Rat.sym('F_H.re')
-        d_im = d_im - Rat.sym('F_H.im')
+        d_re = d_re - Rat.sym('F_H.re@L%d' % lid)    # value of the accumulator at the start of the iteration
+        d_im = d_im - Rat.sym('F_H.im@L%d' % lid)
         w_re = occ * (fre * c_ - fim * s_)
         w_im = occ * (fre * s_ + fim * c_)
         if not (d_re.equals(w_re) and d_im.equals(w_im)):
